@@ -160,7 +160,9 @@ def cluster(ctx):
         raise vlib.Inconclusive("only %d cluster plans generated" % len(plans))
     plans.sort(key=lambda p: json.dumps(p))
     if ctx.quick:
-        plans = [p for k, p in enumerate(plans) if k % 5 == ctx.seed % 5]
+        plans = [p for k, p in enumerate(plans) if p.get("fb") or k % 5 == ctx.seed % 5]   # every plan that reaches the fallback, a fifth of the others
+    if not any(p.get("fb") for p in plans):
+        raise vlib.Inconclusive("no plan reaches the dialer's fallback")
     binary = ctx.build_driver("client")
     total = judged = 0
     for tag, sel, env in (("timeout-set", plans, {"VERIF_CLUSTER_RETRY_MS": 1000}),
